@@ -2,6 +2,7 @@ package checks
 
 import (
 	"fmt"
+	"sort"
 	"strings"
 
 	"github.com/snower/slock/protocol"
@@ -301,13 +302,58 @@ func oracleC15Refused(r *SeqRun) []explore.Violation {
 					return vs
 				}
 				if !val.Equal(got) {
-					add("refused-undoes-others:"+strings.Join(refused, ";"), fmt.Sprintf("%s: every acknowledgement-required request of b has been refused (%s); key 1 carries value %s, the successful operations of a alone compute %s", where, strings.Join(refused, ";"), got, val))
+					add(refusedSig(refused), fmt.Sprintf("%s: every acknowledgement-required request of b has been refused (%s); key 1 carries value %s, the successful operations of a alone compute %s", where, strings.Join(refused, ";"), got, val))
 					return vs
 				}
 			}
 		}
 	}
 	return vs
+}
+
+// refusedSig names the failing history: when every operation that followed a refused request is of another kind
+// than the refused one, the roll-back is skipped altogether (one root cause, one signature); otherwise the inverse
+// operation is applied on top of the others' operations and the signature spells the history out.
+func refusedSig(refused []string) string {
+	kind := func(s string) string { return strings.TrimSuffix(s, "+props") }
+	otherOnly := len(refused) > 0
+	for _, r := range refused {
+		p := strings.SplitN(r, "/", 2)
+		if len(p) != 2 {
+			otherOnly = false
+			break
+		}
+		for _, t := range strings.Split(strings.TrimSuffix(p[1], ","), ",") {
+			if t == "" || kind(t) == kind(p[0]) {
+				otherOnly = false
+			}
+		}
+	}
+	if otherOnly {
+		return "refused-undoes-others/only-operations-of-another-kind-followed"
+	}
+	// the kinds involved, not their order or number: "<refused kind>/<kinds that followed, sorted>"
+	var parts []string
+	for _, r := range refused {
+		p := strings.SplitN(r, "/", 2)
+		if len(p) != 2 {
+			parts = append(parts, r)
+			continue
+		}
+		set := map[string]bool{}
+		for _, t := range strings.Split(strings.TrimSuffix(p[1], ","), ",") {
+			if t != "" {
+				set[kind(t)] = true
+			}
+		}
+		var ks []string
+		for k := range set {
+			ks = append(ks, k)
+		}
+		sort.Strings(ks)
+		parts = append(parts, kind(p[0])+"/"+strings.Join(ks, "+"))
+	}
+	return "refused-undoes-others:" + strings.Join(parts, ";")
 }
 
 // freeVal: the value of a key nobody holds is not defined (refusals answered meanwhile may carry anything);
@@ -424,6 +470,8 @@ func c15Specs(quick bool) []*SeqSpec {
 		op(0, withData(L(0, 1, 1, 0, 60, 5, 3), set0)),
 		op(0, withData(L(0, 1, 1, 0, 60, 5, 3), inc)),
 		op(0, withData(L(0, 1, 1, 0, 60, 5, 3), vd(protocol.NewLockCommandDataSetStringWithProperty("abcdef", props)))),
+		op(0, withData(L(0, 1, 1, 0, 60, 5, 3), vd(protocol.NewLockCommandDataShiftData(1)))),
+		op(0, withData(L(0, 1, 1, 0, 60, 5, 3), vd(protocol.NewLockCommandDataUnsetData()))),
 	}
 	for _, dd := range [][]byte{set0, appx, inc, pipeI, pipeA, vd(protocol.NewLockCommandDataPushString("b")), vd(protocol.NewLockCommandDataShiftData(2)), vd(protocol.NewLockCommandDataPopData(1)), vd(protocol.NewLockCommandDataUnsetData())} {
 		nack = append(nack, op(1, withTF(withData(L(0, 1, 2, 1, 9, 5, 0), dd), tfAck)))
